@@ -282,6 +282,15 @@ func (env *Env) elabBinary(e *SBinary) Val {
 	y := env.elab(e.Y)
 	b := func(t string) Val { return Val{T: t, S: SBool} }
 	switch e.Op {
+	case "==", "!=", "<", "<=", ">", ">=":
+		// an integer-sorted operand next to a Real-sorted one is read as a real number
+		if x.S.K == KReal && y.S.K == KInt {
+			y = Val{T: app("to_real", y.T), S: SReal}
+		} else if y.S.K == KReal && x.S.K == KInt {
+			x = Val{T: app("to_real", x.T), S: SReal}
+		}
+	}
+	switch e.Op {
 	case "&&":
 		return b(and(x.T, y.T))
 	case "||":
